@@ -21,7 +21,7 @@ RULE = (
     "compiler / kinds)."
 )
 SHARDS = {"quick": 16, "thorough": 16}
-CASE_TIMEOUT_S = 30  # CPU seconds per case; DNF / powerset compilations that explode are inconclusive, not judged
+CASE_TIMEOUT_S = 12  # CPU seconds per case; DNF / powerset compilations that explode are inconclusive, not judged
 
 FACTORY_KINDS = [
     "GROUNDING", "CONDITIONAL_EFFECTS_REMOVING", "DISJUNCTIVE_CONDITIONS_REMOVING", "NEGATIVE_CONDITIONS_REMOVING",
